@@ -111,3 +111,14 @@ Fixpoint raw_entries (items : list ritem) : list rentry :=
   | RReq t b :: r => {| rb_buf := b; rb_tag := t |} :: raw_entries r
   | RBlank :: r => raw_entries r
   end.
+
+(* ---------- well-formed raw files ---------- *)
+Definition wf_ritem (il : ritem * lay) : bool :=
+  let '(i, l) := il in
+  wf_lay l &&
+  match i with
+  | RBlank => true
+  | RReq t b =>
+      negb (is_nil b) && tight (ritem_text i) && nolf (ritem_text i)
+      && Z.leb (Z.of_N (nlen b)) max_alloc
+  end.
